@@ -44,7 +44,7 @@ PROPS["C08"] = dict(PROPS["C02"], explanation=_cisco_level + " C08: every reject
 PROPS["C10"] = {
     "explanation": _cisco_level + " C10: the script is cut after a symbolic number k of steps, the model state is converted back into a device configuration, the real GetChanges runs again and its script is executed; end state must filter like the target and a third compare must be silent.",
     "bounds": {"quick": "IOS ACL: n<=2, 1<=m<=2, menu of 8 incl. remark, every cut position including the cut between the two halves of a joined replacement line, device with and without IOS-XE sequence numbers (left-over 10000-step numbering visible to the resumed run); ASA ACL n,m<=2; NSX one rule with 1 or 2 group ids; PAN-OS one rule; ASA / IOS / Linux routes n,m<=2", "thorough": "NSX two rules with two group ids (single-address groups); n,m<=3, menu of 7"},
-    "outside": "as C02; more than one cut; cuts of the object-graph harnesses (VPN objects, crypto maps)",
+    "outside": "as C02; more than one cut; cuts of the object-graph harnesses (VPN objects, crypto maps); ASA: more than two interface ACLs",
     "selftest": "ios_acl",
     "runs": [{"entry": IOS_ACL, "quick": {"N": "2", "K": "8", "cut": "1", "flags": "xe"}, "thorough": {"N": "3", "K": "7", "cut": "1", "flags": "name+xe"}, "covers": ["resumed after cut", "cut between the halves of a replacement", "device shows sequence numbers"]}],
 }
@@ -133,6 +133,7 @@ PROPS["C01"] = {
          "covers": ["move emitted (joined delete+add)", "object-group membership edited", "changes emitted", "no change reported"]},
         {"entry": ASA_ACL, "quick": {"N": "1", "K": "8", "G": "1"}, "thorough": {"N": "3", "K": "6", "G": "1"}, "extra": {"maxpaths": 3000000}},
         {"entry": ASA_ACL, "quick": {"N": "2", "K": "4", "G": "2", "members": "1"}, "thorough": {"N": "2", "K": "4", "G": "2", "members": "1"}, "extra": {"maxpaths": 3000000}},
+        {"entry": ASA_ACL, "quick": {"N": "1", "K": "2", "G": "1", "members": "2", "acl2": "1"}, "thorough": {"N": "1", "K": "2", "G": "2", "members": "2", "acl2": "1"}, "extra": {"maxpaths": 3000000}, "covers": ["second interface ACL on device", "second interface ACL on target"]},
         dict(_graph_run, covers=["managed VPN user on device", "VPN user in target", "changes emitted", "no change reported"]),
         _graph_cert, _graph_dmz, _graph_crypto, RT_ASA,
     ],
@@ -182,6 +183,7 @@ PROPS["C10"]["runs"] = PROPS["C10"]["runs"] + [
     {"entry": ASA_ACL, "quick": {"N": "2", "K": "4", "G": "1", "cut": "1"}, "thorough": {"N": "2", "K": "6", "G": "1", "cut": "1"}, "extra": {"maxpaths": 3000000}, "covers": ["resumed after cut"]},
     {"entry": NSX, "quick": {"N": "1", "G": "1", "seqs": "1", "cut": "1"}, "thorough": {"N": "2", "G": "1", "seqs": "1", "cut": "1"}, "extra": {"maxpaths": 5000000}, "covers": ["resumed after cut"]},
     {"entry": NSX, "quick": {"N": "1", "G": "2", "members": "1", "seqs": "1", "cut": "1"}, "thorough": {"N": "2", "G": "2", "members": "1", "seqs": "1", "cut": "1"}, "extra": {"maxpaths": 5000000}, "covers": ["resumed after cut"]},
+    {"entry": ASA_ACL, "quick": {"N": "1", "K": "1", "G": "1", "members": "2", "acl2": "1", "cut": "1"}, "thorough": {"N": "1", "K": "1", "G": "2", "members": "2", "acl2": "1", "cut": "1"}, "extra": {"maxpaths": 3000000}, "covers": ["resumed after cut", "second interface ACL on device", "second interface ACL on target"]},
     dict(RT_ASA, params={"cut": "1"}, covers=["resumed after cut"]),
     dict(RT_IOS, params={"cut": "1"}, covers=["resumed after cut"]),
     {"entry": M + "/pkg/linux.VerifRoutes", "quick": {"N": "2", "cut": "1"}, "thorough": {"N": "2", "cut": "1"}, "extra": {"maxpaths": 3000000}, "covers": ["resumed after cut"]},
